@@ -105,10 +105,43 @@ Definition chunks (w : nat) (bs : list N) : list (list N) := chunks_aux (length 
 Definition format16 (bs : list N) : list N := format_lines (chunks 16 bs).
 
 (* lprintf(LOG_ERR, "Unable to send RAW command (channel=0x%x netfn=0x%x lun=0x%x cmd=0x%x rsp=0x%x): %s") *)
-Definition rsp_line (chn netfn lun cmd cc : N) (text : list N) : list N :=
+Definition rsp_body (chn netfn lun cmd cc : N) (text : list N) : list N :=
   B "Unable to send RAW command (channel=0x" ++ hexl chn ++ B " netfn=0x" ++ hexl netfn ++
-  B " lun=0x" ++ hexl lun ++ B " cmd=0x" ++ hexl cmd ++ B " rsp=0x" ++ hexl cc ++ B "): " ++ text ++ [10].
+  B " lun=0x" ++ hexl lun ++ B " cmd=0x" ++ hexl cmd ++ B " rsp=0x" ++ hexl cc ++ B "): " ++ text.
+Definition rsp_line (chn netfn lun cmd cc : N) (text : list N) : list N :=
+  rsp_body chn netfn lun cmd cc text ++ [10].
 (* the same message when no response arrived at all *)
 Definition timeout_line (chn netfn lun cmd : N) : list N :=
   B "Unable to send RAW command (channel=0x" ++ hexl chn ++ B " netfn=0x" ++ hexl netfn ++
   B " lun=0x" ++ hexl lun ++ B " cmd=0x" ++ hexl cmd ++ B ")" ++ [10].
+
+(* val2str(rsp->ccode, completion_code_vals): ipmitool's texts for the generic completion codes *)
+Definition cc_texts : list (list N) :=
+  map B ["Node busy"; "Invalid command"; "Invalid command on LUN"; "Timeout"; "Out of space";
+         "Reservation cancelled or invalid"; "Request data truncated"; "Request data length invalid";
+         "Request data field length limit exceeded"; "Parameter out of range";
+         "Cannot return number of requested data bytes";
+         "Requested sensor, data, or record not found"; "Invalid data field in request";
+         "Command illegal for specified sensor or record type";
+         "Command response could not be provided"; "Cannot execute duplicated request";
+         "SDR Repository in update mode"; "Device firmeware in update mode";
+         "BMC initialization in progress"; "Destination unavailable"; "Insufficient privilege level";
+         "Command not supported in present state"; "Cannot execute command, command disabled";
+         "Unspecified error"; "Unknown (0x81)"; ""]%string.
+(* (channel, netfn, lun, cmd) samples for the computed sweep *)
+Definition field_samples : list (N * N * N * N) :=
+  [(0, 6, 0, 1); (7, 44, 3, 255); (15, 63, 1, 204); (12, 12, 0, 236); (1, 10, 2, 0)].
+
+(* session set-up failures and the over-long password message of ipmitool *)
+Definition connection_msgs : list (list N) :=
+  map B ["Error: Unable to establish IPMI v2 / RMCP+ session" ; "Error: Unable to establish LAN session";
+         "Error: Unable to establish IPMI v1.5 / RMCP session"]%string.
+Definition long_password_msgs : list (list N) :=
+  map B ["lanplus: password is longer than 20 bytes."; "lan: password is longer than 16 bytes."]%string.
+Definition preceding_noise : list (list N) :=
+  [[]; B "Get Session Challenge command failed" ++ [10]; B "Activate Session command failed" ++ [10]].
+
+(* rmcp_ping *)
+Definition wf_ping (c : config) : bool :=
+  match c_type c with SerialTerminal => false | _ => true end && plain_word (c_host c) &&
+  match c_auth c with AuthPassword u p => nonul u && nonul p | _ => true end.
